@@ -358,7 +358,19 @@ class World:
         if not self.zk.pending(sid):
             return
         self.begin_step(op, 'deliver')
-        self.zk.deliver(sid, int(op.get('n', 1)))
+        for _ in range(int(op.get('n', 1))):
+            if not self.zk.pending(sid):
+                break
+            try:
+                self.zk.deliver(sid, 1)
+            except (_HarnessFatal, HarnessError):
+                raise
+            except Exception:  # pylint: disable=broad-except
+                # kazoo's callback thread logs what a watch function raises
+                # and carries on: the process does not end unless the
+                # function itself ends it (utils.exit_on_unhandled)
+                self.probes['callback_exception_dropped'] = \
+                    self.probes.get('callback_exception_dropped', 0) + 1
         self.end_step()
 
     # ------------------------------------------------------------------
